@@ -997,6 +997,9 @@ func ruleR04j(c *Ctx, r *Report) {
 			okSite := false
 			if rootOpts {
 				// the root module: the literal in applyOptions, and the closures its option constructors return
+				if g, isG := fa.X.(*ssa.Global); isG && globalFieldInit[g] != nil {
+					okSite = true // the literal of a package-level value that nothing writes afterwards
+				}
 				if o, isF := root.Object().(*types.Func); isF {
 					if funcIs(o, modRoot, "", "applyOptions") {
 						okSite = true
